@@ -30,69 +30,76 @@ CONSTANTS Geometries,   \* set of <<w, h>>
           Chains,       \* set of filter chains (sequences of filter names)
           NameSets,     \* set of sequences of XObject names: the images exported in one run
           PreExisting,  \* set of sets of file names already in the directory
+          Envs,         \* the document the images sit in: "plain", or encrypted with "RC4" / "AESV2"
           DevChoices
 
-VARIABLES imgs, dev, fs0,                       \* the case: image descriptors, deviations, directory before the run
+VARIABLES imgs, dev, env, fs0,                       \* the case: image descriptors, deviations, directory before the run
           k, pc, fs, names, dec, nm, idx,       \* current image, program counter, directory, returned names, decision, candidate name
           file, pos, y, pal, files              \* open file (bytes), offset, current row, colour-table index, closed files
-vars == <<imgs, dev, fs0, k, pc, fs, names, dec, nm, idx, file, pos, y, pal, files>>
+vars == <<imgs, dev, env, fs0, k, pc, fs, names, dec, nm, idx, file, pos, y, pal, files>>
 
-Init == /\ dev \in DevChoices /\ fs0 \in PreExisting
+Init == /\ dev \in DevChoices /\ fs0 \in PreExisting /\ env \in Envs
         /\ \E ns \in NameSets : \E f \in [1..Len(ns) -> (Geometries \X PixKinds \X Chains)] :
               imgs = [q \in 1..Len(ns) |-> Img(ns[q], f[q][3], f[q][2], f[q][1])]
         /\ k = 1 /\ pc = "decide" /\ fs = fs0 /\ names = <<>> /\ dec = "" /\ nm = "" /\ idx = 0
         /\ file = <<>> /\ pos = 0 /\ y = 0 /\ pal = 0 /\ files = <<>>
 
 Cur == imgs[k]
+\* encryption of stream data: an uninterpreted invertible function of the bytes (DESIGN.md 1.1); identity in a plain document
+Cipher(e, b) == IF e = "plain" THEN b ELSE [q \in 1..Len(b) |-> (b[q] + (IF e = "RC4" THEN 101 ELSE 57)) % 256]
 
 ADecide == /\ pc = "decide" /\ k <= Len(imgs)
            /\ dec' = Decide(Cur, dev)
            /\ pc' = IF dec' = "IndexError" THEN "error" ELSE "name"
-           /\ UNCHANGED <<imgs, dev, fs0, k, fs, names, nm, idx, file, pos, y, pal, files>>
+           /\ UNCHANGED <<imgs, dev, env, fs0, k, fs, names, nm, idx, file, pos, y, pal, files>>
 
 \* ------------------------------------------------------------------ _create_unique_image_name
 AName == /\ pc = "name"
          /\ nm' = Cur.name \o Ext(Cur, dec) /\ idx' = 0 /\ pc' = "exists"
-         /\ UNCHANGED <<imgs, dev, fs0, k, fs, names, dec, file, pos, y, pal, files>>
+         /\ UNCHANGED <<imgs, dev, env, fs0, k, fs, names, dec, file, pos, y, pal, files>>
 ANameRetry == /\ pc = "exists" /\ nm \in fs                             \* while os.path.exists(path)
               /\ nm' = Cur.name \o "." \o ToString(idx) \o Ext(Cur, dec) /\ idx' = idx + 1
-              /\ UNCHANGED <<imgs, dev, fs0, k, pc, fs, names, dec, file, pos, y, pal, files>>
+              /\ UNCHANGED <<imgs, dev, env, fs0, k, pc, fs, names, dec, file, pos, y, pal, files>>
 ACreate == /\ pc = "exists" /\ nm \notin fs                             \* open(path, "wb")
            /\ fs' = fs \cup {nm} /\ names' = Append(names, nm) /\ file' = <<>> /\ pos' = 0 /\ y' = 0 /\ pal' = 0
            /\ pc' = IF dec = "bmp" THEN "header" ELSE "blob"
-           /\ UNCHANGED <<imgs, dev, fs0, k, dec, nm, idx, files>>
+           /\ UNCHANGED <<imgs, dev, env, fs0, k, dec, nm, idx, files>>
 
 DoWrite(bytes) == file' = WriteAt(file, pos, bytes) /\ pos' = pos + Len(bytes)
 
 AHeader == /\ pc = "header"
            /\ DoWrite(<<66, 77>> \o LE32(HeaderSize(Cur) + DataSize(Cur)) \o LE16(0) \o LE16(0) \o LE32(HeaderSize(Cur)))
            /\ pc' = "info"
-           /\ UNCHANGED <<imgs, dev, fs0, k, fs, names, dec, nm, idx, y, pal, files>>
+           /\ UNCHANGED <<imgs, dev, env, fs0, k, fs, names, dec, nm, idx, y, pal, files>>
 AInfo == /\ pc = "info"
          /\ DoWrite(LE32(40) \o LE32(Cur.w) \o LE32(Cur.h) \o LE16(1) \o LE16(BmpBits(Cur.pk)) \o LE32(0) \o LE32(DataSize(Cur))
                     \o LE32(0) \o LE32(0) \o LE32(NCols(BmpBits(Cur.pk))) \o LE32(0))
          /\ pc' = IF NCols(BmpBits(Cur.pk)) = 0 THEN "rows" ELSE "palette"
-         /\ UNCHANGED <<imgs, dev, fs0, k, fs, names, dec, nm, idx, y, pal, files>>
+         /\ UNCHANGED <<imgs, dev, env, fs0, k, fs, names, dec, nm, idx, y, pal, files>>
 APalEntry == /\ pc = "palette"
              /\ LET v == PalValue(BmpBits(Cur.pk), pal) IN DoWrite(<<v, v, v, 0>>)
              /\ pal' = pal + 1
              /\ pc' = IF pal + 1 = NCols(BmpBits(Cur.pk)) THEN "rows" ELSE "palette"
-             /\ UNCHANGED <<imgs, dev, fs0, k, fs, names, dec, nm, idx, y, files>>
+             /\ UNCHANGED <<imgs, dev, env, fs0, k, fs, names, dec, nm, idx, y, files>>
 \* _save_bmp: for y in range(height): bmp.write_line(y, data[i : i + bytes_per_line])
 ASeekLine == /\ pc = "rows" /\ y < Cur.h
              /\ pos' = Pos1(Cur) - (y + 1) * LineSize(Cur) /\ pc' = "line"
-             /\ UNCHANGED <<imgs, dev, fs0, k, fs, names, dec, nm, idx, file, y, pal, files>>
+             /\ UNCHANGED <<imgs, dev, env, fs0, k, fs, names, dec, nm, idx, file, y, pal, files>>
 AWriteLine == /\ pc = "line"
               /\ DoWrite(LineBytes(Cur, y, dev)) /\ y' = y + 1 /\ pc' = "rows"
-              /\ UNCHANGED <<imgs, dev, fs0, k, fs, names, dec, nm, idx, pal, files>>
+              /\ UNCHANGED <<imgs, dev, env, fs0, k, fs, names, dec, nm, idx, pal, files>>
 \* the other writers put the decoded stream data into the file as it is (JPEG: the DCT data; raw: the samples)
 AWriteBlob == /\ pc = "blob"
-              /\ DoWrite(Blob(Cur)) /\ pc' = "written"
-              /\ UNCHANGED <<imgs, dev, fs0, k, fs, names, dec, nm, idx, y, pal, files>>
+              \* get_data(): the stored bytes decrypted, then every filter but the image format's undone.  As a deviation
+              \* ("JpegRawdata", a seeded change) a JPEG stored with DCTDecode alone is written from the stored bytes -
+              \* still encrypted in an encrypted document.
+              /\ DoWrite(IF dec = "jpeg" /\ Len(Cur.filters) = 1 /\ "JpegRawdata" \in dev THEN Cipher(env, Blob(Cur)) ELSE Blob(Cur))
+              /\ pc' = "written"
+              /\ UNCHANGED <<imgs, dev, env, fs0, k, fs, names, dec, nm, idx, y, pal, files>>
 AClose == /\ (pc = "written" \/ (pc = "rows" /\ y >= Cur.h))
           /\ files' = Append(files, file) /\ file' = <<>>
           /\ k' = k + 1 /\ pc' = IF k + 1 > Len(imgs) THEN "done" ELSE "decide"
-          /\ UNCHANGED <<imgs, dev, fs0, fs, names, dec, nm, idx, pos, y, pal>>
+          /\ UNCHANGED <<imgs, dev, env, fs0, fs, names, dec, nm, idx, pos, y, pal>>
 
 Next == ADecide \/ AName \/ ANameRetry \/ ACreate \/ AHeader \/ AInfo \/ APalEntry \/ ASeekLine \/ AWriteLine \/ AWriteBlob \/ AClose
 Spec == Init /\ [][Next]_vars
@@ -125,5 +132,5 @@ SeekInArray == pc = "line" => (pos >= HeaderSize(Cur) /\ pos + LineSize(Cur) <= 
 
 EmitTerminal ==
   (pc \in {"done", "error"}) =>
-     PrintT("@@" \o ToJson([imgs |-> imgs, dev |-> dev, fs0 |-> fs0, pc |-> pc, names |-> names, files |-> files, dec |-> dec]))
+     PrintT("@@" \o ToJson([imgs |-> imgs, env |-> env, dev |-> dev, fs0 |-> fs0, pc |-> pc, names |-> names, files |-> files, dec |-> dec]))
 =============================================================================
